@@ -255,6 +255,8 @@ func init() {
 			func(c *Ctx) { c.ruleSignalNonFatal("R-SIGNONFATAL") },
 			func(c *Ctx) { c.ruleWG("R-WG"); c.R.Floor("R-WG", 8) },
 			func(c *Ctx) { c.ruleMapNil("R-MAPNIL", c.scopePkg("schema", "atp")); c.R.Floor("R-MAPNIL", 10) },
+			func(c *Ctx) { c.ruleDeferUnlock("R-DEFERUNLOCK", c.scopePkg("schema", "atp")) },
+			func(c *Ctx) { c.ruleLockset("R-LOCKSET", c.lockTargets("atp", "schema")); c.R.Floor("R-LOCKSET", 15) },
 		},
 	})
 	register(&PropSpec{
